@@ -354,7 +354,8 @@ where
     #[inline(always)]
     unsafe fn get_unchecked(&self, i: usize) -> Self::Item {
         let mut cur_i = i;
-        let mut result: u32 = 0;
+        let mut result: u32 = 0; // the code read so far (compressed tree)
+        let mut value = T::zero(); // the symbol read so far (plain tree)
 
         let mut shift = 0;
 
@@ -364,7 +365,11 @@ where
             }
 
             let symbol = self.bvs[level].get_unchecked(cur_i);
-            result = (result << 1) | symbol as u32;
+            if COMPRESSED {
+                result = (result << 1) | symbol as u32;
+            } else {
+                value = (value << 1) | (symbol as usize).as_();
+            }
 
             let tmp = self.bvs[level].rank1_unchecked(cur_i);
 
@@ -383,7 +388,7 @@ where
 
             T::from(self.codes_decode.as_ref().unwrap()[shift][idx].1).unwrap()
         } else {
-            T::from(result).unwrap()
+            value
         }
     }
 }
@@ -416,12 +421,16 @@ where
             symbol_len = code.len as usize;
             repr = code.content;
         } else {
-            repr = symbol.as_() as u32;
+            repr = 0; // the bits of a plain tree are taken from the symbol itself
             symbol_len = self.n_levels;
         }
 
         for level in 0..symbol_len {
-            let bit = ((repr >> (symbol_len - level - 1)) & 1) == 1;
+            let bit = if COMPRESSED {
+                ((repr >> (symbol_len - level - 1)) & 1) == 1
+            } else {
+                ((symbol >> (symbol_len - level - 1)).as_() & 1) == 1
+            };
 
             let offset = self.bvs[level].n_zeros();
 
@@ -457,9 +466,16 @@ where
             symbol_len = code.len as usize;
             repr = code.content;
         } else {
-            repr = symbol.as_() as u32;
+            repr = 0; // the bits of a plain tree are taken from the symbol itself
             symbol_len = self.n_levels;
         }
+        let bit_at = |level: usize| -> bool {
+            if COMPRESSED {
+                ((repr >> (symbol_len - level - 1)) & 1) == 1
+            } else {
+                ((symbol >> (symbol_len - level - 1)).as_() & 1) == 1
+            }
+        };
         let mut b = 0;
 
         let mut path_off = Vec::with_capacity(symbol_len);
@@ -468,7 +484,7 @@ where
         for level in 0..symbol_len {
             path_off.push(b);
 
-            let bit = ((repr >> (symbol_len - level - 1)) & 1) == 1;
+            let bit = bit_at(level);
 
             let rank_b = if bit {
                 self.bvs[level].rank1(b)
@@ -485,7 +501,7 @@ where
         for level in (0..symbol_len).rev() {
             b = path_off[level];
             let rank_b = rank_path_off[level];
-            let bit = ((repr >> (symbol_len - level - 1)) & 1) == 1;
+            let bit = bit_at(level);
 
             let k = rank_b.checked_add(result)?;
             result = if bit {
